@@ -61,6 +61,10 @@ def cases(seed, tier):
                          unint=rng.random() < 0.35, int_type_p=0.25)
         d["sessions"] = gen.dense_sessions(rng, d["network"])
         d["recompute"] = []
+        if rng.random() < 0.1:
+            # a user subclass that promises every car a minimum current of the user's choosing (not a level of the finite-rate
+            # stations): the documented run_preprocessing hook raises the sessions' minimum rates
+            d["scheduler"]["user_min"] = rng.choice([3, 3, 6.5, 10, 1.5])
         if rng.random() < 0.15:
             # a car that was already connected when the simulation window opens (negative arrival index, as acndata sessions that
             # connect before `start` have) and is overdue from the first period on: estimated departure exactly period 0
